@@ -1,7 +1,7 @@
 import J5V.Go.Hex
 import J5V.Schema.Wire
 import J5V.Schema.ReaderWire
-import J5V.Schema.PropSet
+import J5V.Schema.PropSetModel
 /-!
 Line-protocol driver of the schema cluster (core only). One op per input line, one result per
 output line; see /verif/harness/PROTOCOL-schema.md.
@@ -30,6 +30,16 @@ def stepLoop (toks : List String) : String :=
         let e2dump := prApi (exportEnv env2)
         let tail := if e2dump == e1dump then "same" else "diff " ++ e2dump
         "ok " ++ e1dump ++ " | " ++ prSet env2 ++ " | " ++ tail
+
+/-- `import <hex> <API dump>`: `PackageSetFromSourceAPI` on an arbitrary (mutated) source API -/
+def stepImport (toks : List String) : String :=
+  match parseApi toks with
+  | none => "bad-op"
+  | some api =>
+    match packageSetFromSourceAPI api with
+    | .panic _ => "panic"
+    | .err _ => "err"
+    | .ok env => "ok " ++ prSet env ++ " | " ++ prApi (exportEnv env)
 
 def cls {α} : Outcome α → String
   | .ok _ => "ok"
@@ -70,6 +80,7 @@ def step (line : String) : String :=
   match (line.trimAscii.toString.splitOn " ") with
   | "loop" :: _mode :: _src :: rest => stepLoop rest
   | "reflect" :: _hex :: rest => stepReflect rest
+  | "import" :: _hex :: rest => stepImport rest
   | _ => "bad-op"
 
 partial def loop (h : IO.FS.Stream) (out : IO.FS.Stream) : IO Unit := do
